@@ -554,6 +554,7 @@ def _claims_of(out):
     L = out['L']
     env = dict(out['now'])
     ref = Ref(env)
+    ref_res = Ref(dict(out['now_res'])) if 'now_res' in out else ref
     cl = []
     m = out['m']
     mvars = list(m.vars())
@@ -573,10 +574,10 @@ def _claims_of(out):
         return None, structural
     eqs_res, eqs_dir = [], []
     for (con, t), d in zip(out['cons'], out['direct']):
-        rv_ = ref.val(t)
+        rv_ = ref_res.val(t)
         eqs_res.append(real(out['res'][con.index]) == real(rv_))
         eqs_dir.append(real(d) == real(rv_))
-    dom = list(ref.domain)
+    dom = list(ref_res.domain)
     cl.append(('residual', dom, z3.And(*eqs_res) if eqs_res else z3.BoolVal(True)))
     cl.append(('direct', dom, z3.And(*eqs_dir) if eqs_dir else z3.BoolVal(True)))
     cl.append(('get_x', [], z3.And(*[real(out['xs'][v.index]) == real(env[name_of[id(v)]]) for v in mvars]) if mvars else z3.BoolVal(True)))
@@ -728,9 +729,16 @@ def run_history(c, spec):
     val, vals = sym_values(c)
     m, L, cons, now = play(spec, val)
     m.set_structure()
+    nv, nc = len(list(m.vars())), len(list(m.cons()))
+    if spec.get('jacobian_first') and nv == nc and nc:
+        m.evaluate_jacobian()           # asking for the Jacobian before any residual evaluation must not disturb anything
     res = m.evaluate_residuals()
     direct = [con.evaluate() for con, _ in cons]
-    nv, nc = len(list(m.vars())), len(list(m.cons()))
+    now_res = dict(now)
+    for k_, leaf in enumerate(spec.get('between', [])):
+        # values assigned through the public API between the residual and the Jacobian evaluation
+        now[leaf] = val('%s_b%d' % (leaf, k_))
+        L[leaf].value = now[leaf]
     jac = m.evaluate_jacobian() if nv == nc and nc else None
     xs = m.get_x()
     # what the leaves report back through the public API, and the bookkeeping of the Python layer
@@ -748,7 +756,7 @@ def run_history(c, spec):
         if (L[n] in m._var_cvar_map) != (want.get(n, 0) > 0):
             notes.append('variable %s is %sin _var_cvar_map but %d live constraints use it' % (n, '' if L[n] in m._var_cvar_map else 'not ', want.get(n, 0)))
     reads = [(n, L[n].value) for n in VARS + PARS]
-    return dict(m=m, L=L, cons=cons, res=res, direct=direct, jac=jac, xs=xs, vals=vals, now=now, nv=nv, nc=nc, notes=notes, reads=reads)
+    return dict(m=m, L=L, cons=cons, res=res, direct=direct, jac=jac, xs=xs, vals=vals, now=now, now_res=now_res, nv=nv, nc=nc, notes=notes, reads=reads)
 
 
 def histories(tier):
@@ -765,6 +773,10 @@ def histories(tier):
     H.append(dict(name='shared-expression-two-constraints', init=['f', 'g'], steps=[]))
     H.append(dict(name='shared-expression-remove-one', init=['f', 'g'], steps=[('structure',), ('del', 'f'), ('add', 'a')]))
     H.append(dict(name='three-vars', init=['a', 'b', 'e'], steps=[('set', 'z'), ('structure',)]))
+    # the Jacobian is asked for at values that differ from those of the last residual evaluation (piecewise rows may switch branch)
+    H.append(dict(name='values-change-before-jacobian', init=['a', 'c'], steps=[('structure',)], between=['x', 'y', 'p']))
+    H.append(dict(name='param-change-before-jacobian', init=['c', 'd'], steps=[], between=['p', 'q']))
+    H.append(dict(name='jacobian-before-residuals', init=['a', 'c'], steps=[('set', 'x')], jacobian_first=True))
     if tier == 'thorough':
         keys = ['a', 'b', 'c']
         for i, (k1, k2) in enumerate(itertools.permutations(keys, 2)):
@@ -879,6 +891,42 @@ def _compare(m, L, cons, values_now):
     return None
 
 
+def _compare_staged(m, L, cons, spec, val, now):
+    """residuals at the first values, then values change, then the Jacobian (no residual evaluation in between)"""
+    m.set_structure()
+    if spec.get('jacobian_first') and len(list(m.vars())) == len(cons):
+        m.evaluate_jacobian()
+    res = m.evaluate_residuals()
+    env = {n: float(L[n].value) for n in VARS + PARS}
+    tol = lambda a, b: abs(a - b) <= 1e-7 * max(1.0, abs(a), abs(b))
+    for con, t in cons:
+        want = _num(t, env)
+        if want is not None and not tol(float(res[con.index]), want):
+            return 'residual of %s at %r is %.12g, the expression evaluates to %.12g' % (con.name, env, float(res[con.index]), want)
+    for k_, leaf in enumerate(spec.get('between', [])):
+        now[leaf] = val('%s_b%d' % (leaf, k_))
+        L[leaf].value = now[leaf]
+    env = {n: float(L[n].value) for n in VARS + PARS}
+    mvars = list(m.vars())
+    if len(mvars) != len(cons):
+        return None
+    J = m.evaluate_jacobian().toarray()
+    name_of = {id(L[n]): n for n in VARS}
+    for con, t in cons:
+        r = Ref(env)
+        for v in mvars:
+            dt = r.diff(t, name_of[id(v)])
+            want = _num(dt, env)
+            if want is None:
+                continue
+            if any((_num(s_ if kind == 'nz' else s_[1], env) in (None, 0.0) if kind == 'nz' else _num(s_[1], env) in (None, s_[2], s_[3])) for kind, s_ in r.smooth):
+                continue
+            if not tol(float(J[con.index, v.index]), want):
+                return ('after the values changed to %r (no residual evaluation in between) the jacobian entry d(%s)/d(%s) is %.12g, the true partial derivative is %.12g'
+                        % (env, con.name, name_of[id(v)], float(J[con.index, v.index]), want))
+    return None
+
+
 def replay_shape(i):
     cat = catalogue('thorough')
     if i['shape'] not in cat:
@@ -928,6 +976,10 @@ def replay_history(i):
             return values[n] if n in values else _generic(GENERIC[0], n, cnt[0])
         try:
             m, L, cons, now = play(spec, val)
+            if spec.get('between') or spec.get('jacobian_first'):
+                msg = _compare_staged(m, L, cons, spec, val, now)
+                if msg:
+                    return msg
             if set(id(cn) for cn in m.cons()) != set(id(cn) for cn, _ in cons):
                 return 'Model.cons() lists %d constraints, %d are live' % (len(list(m.cons())), len(cons))
             for n in VARS + PARS:
